@@ -8,3 +8,4 @@ import CC.Thm.C02
 #print axioms CC.Thm.C02.rechunk
 #print axioms CC.Thm.C02.apply_twice_restores
 #print axioms CC.Thm.C02.source_glue_match
+#print axioms CC.Thm.C02.source_seeknum_match
